@@ -321,6 +321,7 @@ type callRec struct {
 	pc       PubCall
 	evs      []int
 	inv, ret int64
+	t0       int64 // virtual time at invocation
 	returned bool
 	liveKids int
 }
@@ -400,9 +401,9 @@ func (H) Execute(scAny any, cfg simrt.Config, st *core.Stats) (*simrt.Outcome, *
 	r := &run{sc: sc, ps: &chans.PubSub[int]{PubTimeoutAfter: time.Duration(sc.Timeout), DefaultBuffer: sc.DefBuf}}
 	if sc.OnTimeout {
 		r.ps.OnPubTimeout = func(ev int) {
-			stamp := simrt.Stamp()
+			now := simrt.NowNanos()
 			r.mu.Lock()
-			r.touts = append(r.touts, delivery{ev, stamp})
+			r.touts = append(r.touts, delivery{ev, now})
 			r.mu.Unlock()
 		}
 	}
@@ -428,6 +429,7 @@ func (H) Execute(scAny any, cfg simrt.Config, st *core.Stats) (*simrt.Outcome, *
 					r.calls[p] = append(r.calls[p], rec)
 					cr := &r.calls[p][len(r.calls[p])-1]
 					ps := r.ps
+					cr.t0 = simrt.NowNanos()
 					cr.inv = simrt.Stamp()
 					if pc.Only >= 0 {
 						ps = ps.WithOnly(r.subs[pc.Only].ch)
@@ -678,8 +680,12 @@ func (r *run) check(out *simrt.Outcome, st *core.Stats) *core.Violation {
 	// exactly once / delivery-or-timeout accounting per event
 	tcount := map[int]int{}
 	for _, t := range r.touts {
-		if byTok[t.tok] == nil {
+		c := byTok[t.tok]
+		if c == nil {
 			return &core.Violation{Signature: "invented-timeout", Detail: fmt.Sprintf("OnPubTimeout called with %d which nobody published", t.tok)}
+		}
+		if t.stamp-c.t0 < sc.Timeout {
+			return &core.Violation{Signature: "timed-out-early", Detail: fmt.Sprintf("OnPubTimeout(%d) was called %v after the %s call began, PubTimeoutAfter is %v", t.tok, time.Duration(t.stamp-c.t0), c.pc.Variant, time.Duration(sc.Timeout))}
 		}
 		tcount[t.tok]++
 	}
